@@ -1,5 +1,6 @@
 import Clikit.Lemmas.ParserInv
 import Clikit.Lemmas.Spelling
+import Clikit.Lemmas.Realign
 /-!
 # C01 - parsing a well-formed command line recovers exactly the intended values
 
@@ -185,5 +186,118 @@ example : SpellsLine fmtS ["-vn".toList, "bob".toList, "x".toList, "--name=al".t
 example : parse cvA fmtS false ["-vn".toList, "bob".toList, "x".toList, "--name=al".toList, "--".toList, "--y".toList]
     = .ok { args := [("rest".toList, .list [.str "x".toList, .str "--y".toList])],
             opts := [("verbose".toList, .scalar (.bool true)), ("name".toList, .scalar (.str "al".toList))] } := by rfl
+
+/-! ## Positionals fill the arguments in order; omitted command names are re-inserted
+
+`fill vals fa` (Lemmas/Realign.lean) is the specification "the k-th value goes to the k-th
+argument, a trailing multi-valued argument takes all that is left"; `insertNames cmds vals` puts
+the command names that were not typed back behind the typed ones.  `MultiLast f.fargs` (a
+multi-valued argument is the last one) and distinct argument names are what C06 guarantees for
+every format that can be built. -/
+
+/-- **The positionals of a line fill the arguments in order.**  Whatever the items are and however
+they are interleaved with options: when the token loop succeeds, the argument dictionary is exactly
+`fill` of the positional values in command-line order (option items never touch it). -/
+theorem positionals_in_order (f : Fmt) (hml : MultiLast f.fargs) (hnd : (f.fargs.map (·.key)).Nodup)
+    (len : Bool) (sems : List Sem) (σ : St) (h : runSems f len sems St.empty = .ok σ) :
+    σ.args = fill (posVals sems) f.fargs := by
+  have := runSems_fill f hml hnd len sems [] [] σ (by simpa [St.empty, fill_nil_left] using h)
+  simpa using this
+
+/-- **Omitted command names are re-inserted.**  For a spelled line whose positionals fit the
+format: `parse` is the second half of `parse()` run on `fill` of the positionals, and its first
+step `_insert_missing_command_names` yields `fill` of the positionals WITH the omitted command
+names put back (`insertNames`) - whenever those fit, and always in lenient mode; otherwise
+(strict mode) it is the cannot-parse error "too many arguments". -/
+theorem command_names_realigned (cv : Conv) (f : Fmt) (hml : MultiLast f.fargs)
+    (hnd : (f.fargs.map (·.key)).Nodup) (len : Bool) (line : List Str) (sems : List Sem) (σ : St)
+    (hsp : SpellsLine f line sems) (hrun : runSems f len sems St.empty = .ok σ)
+    (hfit : fits (posVals sems).length f.fargs = true) :
+    parse cv f len line = (finish cv f len { args := fill (posVals sems) f.fargs, opts := σ.opts }).1 ∧
+    insertMissing f len { args := fill (posVals sems) f.fargs, opts := σ.opts } =
+      (if fits (insertNames f.cmds (posVals sems)).length f.fargs || len then
+        .ok { args := fill (insertNames f.cmds (posVals sems)) f.fargs, opts := σ.opts }
+      else .error .cannotParse) := by
+  have hargs := positionals_in_order f hml hnd len sems σ hrun
+  have hσ : σ = { args := fill (posVals sems) f.fargs, opts := σ.opts } := by
+    cases σ
+    simp only at hargs
+    subst hargs
+    rfl
+  refine ⟨?_, insertMissing_fill f hml hnd len _ _ hfit⟩
+  rw [parse_spells cv f len line sems hsp]
+  unfold parseSem
+  rw [hrun]
+  simp only [afterLoop]
+  rw [← hσ]
+
+/-- **The real arguments follow the typed command names.**  After the re-alignment every
+command-name slot is taken (by the typed name or by the inserted one) and the real arguments of the
+format are filled, in order, with the values behind the command names that were typed. -/
+theorem real_arguments_follow_typed_names (f : Fmt) (vals : List V) :
+    fill (insertNames f.cmds vals) f.fargs =
+      fill ((insertNames f.cmds vals).take f.cmds.length) (pseudoArgs f.cmds.length) ++
+      fill (vals.drop (matched f.cmds vals))
+        (f.args.map fun a => { key := .real a.name, required := a.required, multi := a.multi }) :=
+  (fill_insertNames f.cmds _ vals).1
+
+/-- all command names typed (by name or alias): the re-alignment moves nothing -/
+theorem all_names_typed_nothing_moves (cmds : List CmdName) (typed : List Str) (rest : List V)
+    (hl : typed.length = cmds.length)
+    (hm : ∀ i (h : i < typed.length) (h' : i < cmds.length), typed[i] ≠ [] ∧ cmds[i].matches typed[i] = true) :
+    insertNames cmds (typed.map V.tok ++ rest) = typed.map V.tok ++ rest :=
+  insertNames_all_given cmds typed rest hl hm
+
+/-- only the first `typed.length` command names typed, and the next value is not the next name:
+the omitted names are inserted right behind the typed ones, everything else follows -/
+theorem omitted_names_inserted_behind_typed (cmds : List CmdName) (typed : List Str) (rest : List V)
+    (hl : typed.length ≤ cmds.length)
+    (hm : ∀ i (h : i < typed.length) (h' : i < cmds.length), typed[i] ≠ [] ∧ cmds[i].matches typed[i] = true)
+    (hr : ∀ s r c, rest = .tok s :: r → cmds[typed.length]? = some c → (s != [] && c.matches s) = false) :
+    insertNames cmds (typed.map V.tok ++ rest) =
+      typed.map V.tok ++ (cmds.drop typed.length).map V.cmd ++ rest :=
+  insertNames_prefix_given cmds typed rest hl hm hr
+
+/-! Non-vacuity of the re-alignment: a format with the two command names `server` (alias `srv`)
+and `add`, a single-valued and a multi-valued argument; the line types only the first name. -/
+def cSrv : CmdName := { name := "server".toList, aliases := ["srv".toList] }
+def cAdd : CmdName := { name := "add".toList, aliases := [] }
+def fmtR : Fmt :=
+  { cmds := [cSrv, cAdd], opts := [],
+    args := [{ name := "host".toList, required := true, multi := false, ty := .string, nullable := false,
+               default := .scalar .none },
+             { name := "files".toList, required := false, multi := true, ty := .string, nullable := false,
+               default := .list [] }] }
+
+example : MultiLast fmtR.fargs ∧ (fmtR.fargs.map (·.key)).Nodup := by
+  refine ⟨⟨rfl, rfl, rfl, trivial⟩, by decide⟩
+
+/-- `srv h x y` : `add` is put back behind `srv`, `h` moves from the `add` slot to `host` -/
+example : insertNames fmtR.cmds [.tok "srv".toList, .tok "h".toList, .tok "x".toList, .tok "y".toList] =
+    [.tok "srv".toList, .cmd cAdd, .tok "h".toList, .tok "x".toList, .tok "y".toList] := by decide
+
+example : insertMissing fmtR false
+      { args := fill [.tok "srv".toList, .tok "h".toList, .tok "x".toList, .tok "y".toList] fmtR.fargs, opts := [] } =
+    .ok { args := [(.pseudo 0, .one (.tok "srv".toList)), (.pseudo 1, .one (.cmd cAdd)),
+                   (.real "host".toList, .one (.tok "h".toList)),
+                   (.real "files".toList, .many [.tok "x".toList, .tok "y".toList])], opts := [] } := by rfl
+
+def lineR : List Str := ["srv".toList, "h".toList, "x".toList, "y".toList]
+def semsR : List Sem := [.pos "srv".toList, .pos "h".toList, .pos "x".toList, .pos "y".toList]
+
+theorem lineR_spells : SpellsLine fmtR lineR semsR :=
+  .cons (.pos rfl) (.cons (.pos rfl) (.cons (.pos rfl) (.cons (.pos rfl) .nil)))
+
+/-- the hypotheses of `command_names_realigned` hold for this line, and its conclusion is the
+concrete re-aligned state -/
+example : insertMissing fmtR false { args := fill (posVals semsR) fmtR.fargs, opts := [] } =
+    .ok { args := fill [.tok "srv".toList, .cmd cAdd, .tok "h".toList, .tok "x".toList, .tok "y".toList] fmtR.fargs,
+          opts := [] } :=
+  (command_names_realigned cvA fmtR ⟨rfl, rfl, rfl, trivial⟩ (by decide) false lineR semsR
+    { args := fill (posVals semsR) fmtR.fargs, opts := [] } lineR_spells rfl (by decide)).2
+
+example : parse cvA fmtR false lineR =
+    .ok { args := [("host".toList, .scalar (.str "h".toList)),
+                   ("files".toList, .list [.str "x".toList, .str "y".toList])], opts := [] } := by rfl
 
 end Clikit.Props.C01
